@@ -168,26 +168,46 @@ def judge_output(ctx, res, what, case_of, stats):
 
 
 def bisect(ctx, gen_factory, sc, cases, sig0, budget):
-    """find single cases that crash staticcheck; returns list of (case, signature)"""
-    out = []
-    work = [cases]
-    while work and budget[0] > 0 and len(out) < 6:
-        cs = work.pop()
+    """find single cases that crash staticcheck; returns (list of (case, signature, stderr), rest_is_clean).
+    Descend into a crashing half until one function is left; then drop every case that shares the culprit's
+    atom (a crash of a single atom is reported once, not once per context) and look again."""
+    def run(cs):
         budget[0] -= 1
         g = gen_factory()
-        names = g.add(cs)
-        g.build(names)
+        g.add(cs)     # subsets of packages that `go build` accepted: no need to build again
         r = sc.run(g.dir, ["./..."], trace=False, timeout=900)
         shutil.rmtree(g.dir, ignore_errors=True)
+        return r
+    out = []
+    clean = False
+    remaining = list(cases)
+    while remaining and budget[0] > 0 and len(out) < 6:
+        r = run(remaining)
         if not crashed(r):
-            continue
-        if len(cs) == 1:
-            out.append((cs[0], "hang" if r["hung"] else (crash_signature(r["stderr"]) or "exit %s" % r["rc"]), r["stderr"][:3000]))
-            continue
-        h = len(cs) // 2
-        work.append(cs[h:])
-        work.append(cs[:h])
-    return out
+            clean = True
+            break
+        cur = remaining
+        while len(cur) > 1 and budget[0] > 0:
+            h = len(cur) // 2
+            rl = run(cur[:h])
+            if crashed(rl):
+                cur, r = cur[:h], rl
+            else:
+                cur = cur[h:]
+                r = None
+        if len(cur) != 1:
+            break
+        if r is None:
+            r = run(cur)
+            if not crashed(r):
+                break      # only crashes in combination with other functions of the package: give up on reduction
+        c = cur[0]
+        out.append((c, "hang" if r["hung"] else (crash_signature(r["stderr"]) or "exit %s" % r["rc"]), r["stderr"][:3000]))
+        if c["b"] == "none":
+            remaining = [x for x in remaining if x["a"] != c["a"] and x["b"] != c["a"]]
+        else:
+            remaining = [x for x in remaining if not (x["a"] == c["a"] and x["b"] == c["b"])]
+    return out, clean or not remaining
 
 
 def lint_generated(ctx, sc, gen, names, stats, label, traces, poisoned):
@@ -208,12 +228,14 @@ def lint_generated(ctx, sc, gen, names, stats, label, traces, poisoned):
         stats["packages_linted"] = stats.get("packages_linted", 0) + len(b)
         stats["functions_linted"] = stats.get("functions_linted", 0) + sum(len(gen.pkgs[n]) for n in b)
         if crashed(r):
-            cases = [c for n in b for c in gen.pkgs[n] if c["a"] not in poisoned and c["b"] not in poisoned]
-            found = bisect(ctx, factory, sc, cases, crash_signature(r["stderr"]), budget)
-            if not found:
+            allc = [c for n in b for c in gen.pkgs[n]]
+            cases = [c for c in allc if c["a"] not in poisoned and c["b"] not in poisoned]
+            found, clean = bisect(ctx, factory, sc, cases, crash_signature(r["stderr"]), budget)
+            explained = clean and len(cases) < len(allc)   # the batch only crashes through an atom already reported
+            if not found and not explained:
                 ctx.violation(vlib.canon_key({"crash-batch": crash_signature(r["stderr"]) or r["rc"]}),
                               "%s: staticcheck %s on generated packages %s (could not be reduced to one function): %s"
-                              % (label, "hung" if r["hung"] else "crashed", b, r["stderr"][:400]),
+                              % (label, "hung" if r["hung"] else "crashed", b, crash_signature(r["stderr"]) or r["stderr"][:200].replace("\n", " ")),
                               {"kind": "crash", "packages": b, "stderr": r["stderr"][:4000], "rc": r["rc"]})
             for case, sig, stderr in found:
                 atom = case["a"] if case["b"] == "none" else None
